@@ -78,6 +78,22 @@ func resolveStruct(rv reflect.Value, fieldName string) (any, bool) {
 		}
 	}
 
+	// JSON tags of fields promoted from embedded structs (shallower fields win: they were tried above)
+	for _, f := range reflect.VisibleFields(rt) {
+		if len(f.Index) < 2 {
+			continue
+		}
+		tagName := strings.Split(f.Tag.Get("json"), ",")[0]
+		if tagName == "" || tagName != fieldName {
+			continue
+		}
+		fv, err := rv.FieldByIndexErr(f.Index)
+		if err != nil || !fv.CanInterface() {
+			return nil, false
+		}
+		return fv.Interface(), true
+	}
+
 	return nil, false
 }
 
@@ -320,6 +336,30 @@ func PopulateStructFields(m map[string]any, data any) {
 		if tagName != f.Name {
 			if _, taken := m[f.Name]; !taken {
 				m[f.Name] = fieldValue
+			}
+		}
+	}
+
+	// Fields promoted from embedded structs are names of the struct as well (FieldByName finds
+	// them): list them under tag and Go name unless a shallower field took the key.
+	for _, f := range reflect.VisibleFields(rt) {
+		if len(f.Index) < 2 || !f.IsExported() {
+			continue
+		}
+		fv, err := rv.FieldByIndexErr(f.Index)
+		if err != nil || !fv.CanInterface() {
+			continue
+		}
+		value := fv.Interface()
+		if fv.Kind() == reflect.Struct || (fv.Kind() == reflect.Ptr && fv.Type().Elem().Kind() == reflect.Struct) {
+			value = structToMap(value, map[uintptr]bool{})
+		}
+		for _, key := range []string{strings.Split(f.Tag.Get("json"), ",")[0], f.Name} {
+			if key == "" {
+				continue
+			}
+			if _, taken := m[key]; !taken {
+				m[key] = value
 			}
 		}
 	}
